@@ -142,6 +142,8 @@ trait Scal: EucRing + Txt where for<'x> &'x Self: EucRingOps<Self> {
     /// fixed-width representation: near-limit stream applies
     const MACHINE: bool = false;
     fn tag() -> String;
+    /// operand text of the integer `n` embedded in the ring
+    fn lit(n: i64) -> String { n.to_string() }
     fn caps() -> Caps;
     /// construct from operand text exactly as the Lean driver does; `None` = the constructor panicked
     fn mk(s: &str) -> Option<Self>;
@@ -472,8 +474,13 @@ fn known(s: &mut Sink, clause: &str, input: &str, detail: &str) {
 
 /// single operations on operands near the limits of the machine type
 fn near_limit_case<R: Scal>(s: &mut Sink, r: &mut Rng) where for<'x> &'x R: EucRingOps<R> {
-    let tag = R::tag();
     let (at, bt) = (R::gen_nl(r), R::gen_nl(r));
+    near_limit_pair::<R>(s, &at, &bt);
+}
+
+fn near_limit_pair<R: Scal>(s: &mut Sink, at: &str, bt: &str) where for<'x> &'x R: EucRingOps<R> {
+    let tag = R::tag();
+    let (at, bt) = (at.to_string(), bt.to_string());
     s.count(&format!("{}.nearlimit", tag));
     let mut operands = vec![];
     for t in [&at, &bt] {
@@ -757,6 +764,7 @@ macro_rules! impl_quad {
                 let b = if r.chance(1, 4) { BigInt::zero() } else { gen_int(r, cap) };
                 if r.chance(1, 8) { format!("{},{}", b, a) } else { format!("{},{}", a, b) }
             }
+            fn lit(n: i64) -> String { format!("{},0", n) }
             fn gen_nl(r: &mut Rng) -> String { format!("{},{}", gen_nl64(r), if r.chance(1, 3) { BigInt::zero() } else { gen_nl64(r) }) }
             fn m(&self) -> PM { (self.left().to_big(), self.right().to_big()) }
             fn m_of_txt(s: &str) -> Option<PM> { let (a, b) = s.split_once(',')?; Some((a.parse().ok()?, b.parse().ok()?)) }
@@ -796,6 +804,15 @@ struct Plan { un: usize, bin: usize, triple: usize, hist: usize, hist_len: usize
 
 fn run_ring<R: Scal>(s: &mut Sink, r: &mut Rng, plan: &Plan, corpus: &[&str]) where for<'x> &'x R: EucRingOps<R> {
     let caps = R::caps();
+    // zero() / one() are the canonical representatives of 0 / 1
+    for (n, v) in [(0i64, R::zero()), (1, R::one())] {
+        let t = R::lit(n);
+        let w = R::mk(&t).unwrap();
+        s.oracle(v == w && v.txt() == w.txt() && v.canon(), "zero()/one() are the canonical representatives of 0/1", &format!("un {} {}", R::tag(), t), &format!("{} vs {}", v.txt(), w.txt()));
+    }
+    if R::MACHINE {
+        for (a, b) in nl_corpus(&R::tag()) { guarded_case(s, &format!("nearlimit {} {} {}", R::tag(), a, b), |s| near_limit_pair::<R>(s, a, b)); }
+    }
     // corpus: every value alone, every ordered pair
     for a in corpus { guarded_case(s, &format!("un {} {}", R::tag(), a), |s| un_case::<R>(s, a)); }
     for a in corpus { for b in corpus {
@@ -826,6 +843,24 @@ fn run_ring<R: Scal>(s: &mut Sink, r: &mut Rng, plan: &Plan, corpus: &[&str]) wh
             let mut r2 = r.fork();
             guarded_case(s, &format!("nearlimit {}", R::tag()), |s| near_limit_case::<R>(s, &mut r2));
         }
+    }
+}
+
+/// hand-written near-limit pairs (results representable, no intermediate overflow: must all succeed)
+fn nl_corpus(tag: &str) -> Vec<(&'static str, &'static str)> {
+    match tag {
+        "Z64" => vec![("9223372036854775807", "0"), ("9223372036854775806", "1"), ("-9223372036854775807", "-1"), ("4611686018427387904", "4611686018427387903"),
+            ("3037000499", "3037000499"), ("-3037000499", "3037000499"), ("2147483648", "4294967295"), ("9007199254740993", "1024"), ("-9223372036854775808", "1"), ("-9223372036854775808", "0")],
+        "Z128" => vec![("170141183460469231731687303715884105727", "0"), ("170141183460469231731687303715884105726", "1"), ("-170141183460469231731687303715884105727", "-1"),
+            ("13043817825332782212", "13043817825332782212"), ("9223372036854775808", "18446744073709551615"), ("-170141183460469231731687303715884105728", "1")],
+        "Q64" => vec![("9007199254740993", "9007199254740992"), ("9007199254740993/2", "9007199254740992/2"), ("-9007199254740993", "-9007199254740992"),
+            ("9007199254740993/9007199254740992", "9007199254740992/9007199254740991"), ("1/9007199254740993", "1/9007199254740992"),
+            ("4611686018427387904/3", "4611686018427387905/3"), ("9223372036854775807", "9223372036854775806"), ("1/9223372036854775807", "1/9223372036854775806"),
+            ("9223372036854775807/2", "1/2"), ("3037000499/3037000500", "3037000500/3037000499"), ("4294967296/3", "3/4294967296"), ("-9223372036854775807", "1"),
+            ("6442450941/4294967296", "6442450943/4294967296"), ("4611686018427387904", "1/4611686018427387904")],
+        "G64" | "E64" => vec![("3037000499,0", "3037000499,0"), ("0,3037000499", "0,3037000499"), ("2147483648,2147483647", "2147483647,-2147483648"),
+            ("9223372036854775807,0", "0,1"), ("9223372036854775806,-9223372036854775807", "1,1"), ("4611686018427387904,4611686018427387903", "1,0"), ("1000000007,998244353", "998244353,-1000000007")],
+        _ => vec![],
     }
 }
 
